@@ -70,7 +70,17 @@ PickWide ==
                 IN c[5] + 1 \in {lo, hi}
     /\ l' = l + 1
 
-Next == Pick \/ McPick \/ Count \/ PickAny \/ PickWide
+\* weights {2^digits - 1, 1} between `lead` and `trail` disabled channels: the boundary (2^digits - 1) / 2^digits is the largest canonical number
+\* and is computed without rounding, so the half-open intervals decide: the largest number belongs to the channel of weight one, the
+\* numbers below it to the other (the instance S = 16 of this is model-checked in MC_Select: Owner(<<15, 1>>, 15, 16) = {2})
+PickTop ==
+    /\ l <= TraceLen
+    /\ LET e == TheTrace[l] IN
+       /\ e.e = "PickTop" /\ e.draws = 5 /\ Len(e.idx) = 5
+       /\ e.idx[1] = e.lead + 1                                        \* the largest value below one
+       /\ \A k \in 2 .. 5 : e.idx[k] = e.lead                          \* its two predecessors, zero and the smallest positive number
+    /\ l' = l + 1
+Next == Pick \/ McPick \/ Count \/ PickAny \/ PickWide \/ PickTop
 Spec == Init /\ [][Next]_vars
 TraceAccepted == TraceAcceptedBy(TraceLen)
 =============================================================================
